@@ -136,7 +136,28 @@ func (w *Wallet) Script(kind, i int) []byte {
 	case KReturn:
 		pk = append([]byte{0x6a}, push(h[:8])...)
 	default:
-		pk = append([]byte{0x63, 0x67, 0x68, 0x75}, push(h[:5])...) // IF ELSE ENDIF DROP <5 bytes>: nobody spends it
+		// odd scripts nobody spends; several are not even parseable to the end (legal as an output script:
+		// everything that walks them - sigop counting, standardness tests, address indexing - has to cope)
+		switch i % 9 {
+		case 0:
+			pk = append([]byte{0x63, 0x67, 0x68, 0x75}, push(h[:5])...) // IF ELSE ENDIF DROP <5 bytes>
+		case 1:
+			pk = []byte{0x75, 0x4d, h[0]} // DROP PUSHDATA2 with half a length field
+		case 2:
+			pk = []byte{0x75, 0x4e, h[0], 0x00} // DROP PUSHDATA4 with half a length field
+		case 3:
+			pk = []byte{0x75, h[0], 0x4c} // DROP <op> PUSHDATA1 without its length byte
+		case 4:
+			pk = []byte{0x4c, 0x05, h[0], h[1]} // PUSHDATA1 claiming 5 bytes, 2 present
+		case 5:
+			pk = []byte{0x20, h[0], h[1], h[2]} // push of 32 bytes, 3 present
+		case 6:
+			pk = []byte{0x75, 0xac, 0xac, 0xad, h[0] | 0x80} // three sigops and an invalid opcode
+		case 7:
+			pk = []byte{0x60, 0xae, 0x75, 0x4e, 0xff, 0xff, 0xff, 0x7f} // OP_16 CHECKMULTISIG, then PUSHDATA4 of 2 GiB
+		default:
+			pk = []byte{0x4d, 0xff, 0xff, h[0]} // PUSHDATA2 of 65535 bytes, 1 present
+		}
 	}
 	w.scripts[hex.EncodeToString(pk)] = spendInfo{kind, i}
 	return pk
